@@ -91,7 +91,7 @@ func (f *Frame) instr(ins ssa.Instruction, st *State) bool {
 	case *ssa.ChangeInterface:
 		v := f.val(x.X, st)
 		v.Go = x.Type()
-		f.vals[x] = v
+		f.vals[x] = v // Dyn is kept
 	case *ssa.MakeInterface:
 		v := f.val(x.X, st)
 		if v.T.S == "" && v.Clo != nil {
@@ -100,7 +100,9 @@ func (f *Frame) instr(ins ssa.Instruction, st *State) bool {
 		if v.T.S == "" {
 			f.fail("MakeInterface of non-first-class value")
 		}
-		f.vals[x] = Val{T: un.define(x.Name(), IfaceMk(u.TypeTag(x.X.Type()), u.Box(v.T))), Go: x.Type()}
+		it := un.define(x.Name(), IfaceMk(u.TypeTag(x.X.Type()), u.Box(v.T)))
+		un.ifacePay[it.S] = v.T
+		f.vals[x] = Val{T: it, Go: x.Type(), Dyn: x.X.Type()}
 	case *ssa.TypeAssert:
 		f.typeAssert(x, st)
 	case *ssa.Extract:
